@@ -222,6 +222,16 @@ typedef struct ssjob { pv_world* w; const char* str; size_t len; unsigned coin; 
 static void* ss_thread(void* p) {
     ssjob* j = p; pv_w = j->w;
     stack_t alt; alt.ss_sp = malloc(1 << 15); alt.ss_size = 1 << 15; alt.ss_flags = 0; sigaltstack(&alt, NULL);       /* so that a stack overflow is reported, not just fatal */
+    if (j->len > 4000) {
+        /* "any length": the stack a call needs must not grow with the length of the caller's string (a variable-length array or
+         * alloca sized by the input works on an 8 MiB main-thread stack and dies on a worker thread) */
+        polyseed_data* d = NULL; const polyseed_lang* lo = NULL;
+        int st = pv_api_decode(j->str, j->coin, &lo, &d); if (st == POLYSEED_OK) pv_api_free(d);
+        if (st < 0 || st > POLYSEED_ERR_MEMORY) pv_violation("C14/status-out-of-range", "decode of a %zu-byte string on a small stack -> %d", j->len, st);
+        d = NULL; st = pv_api_decode_explicit(j->str, j->coin, pv_langs[j->lang >= 0 && pv_langs[j->lang].lib ? j->lang : 0].lib, &d); if (st == POLYSEED_OK) pv_api_free(d);
+        if (st < 0 || st > POLYSEED_ERR_MEMORY) pv_violation("C14/status-out-of-range", "decode_explicit of a %zu-byte string on a small stack -> %d", j->len, st);
+        PV_COUNT("small_stack.long_inputs", 1); PV_COUNT("evaluations", 2);
+    } else
     phrase_calls(j->str, j->len, j->coin, j->lang, "small-stack", &j->rng, false, false);
     polyseed_data* s = NULL; pv_mseed m; pv_gen_mseed(&j->rng, 3, true, &m);
     uint8_t* img = malloc(32); pv_m_image(&m, img);
@@ -237,9 +247,23 @@ static void* ss_thread(void* p) {
 }
 static uint64_t n_small(void) { return pv_scaled(3000, 60000); }
 static void run_small(uint64_t idx, pv_rng* rng) {
-    (void)idx;
     pv_gstr g; pv_gen_string(rng, 3, &g);
     if (g.len > 4000) { pv_gstr_free(&g); return; }
+    if (idx % 16 == 7) {
+        /* a long string (70 KiB ... 1.2 MiB, far beyond the 96 KiB stack): the generated string, which may be a valid phrase, with a
+         * non-ASCII or ASCII head in front or a long tail of words, blanks, accents or CR/LF behind */
+        static const size_t LONG[] = { 70u << 10, 200u << 10, 1200u << 10 };
+        static const char* const FILL[] = { " word", " ", "\xcc\x81", "\r\n", " \xed\x95\x9c\xea\xb5\xad", "a" };
+        size_t L = LONG[(idx / 16) % 3] + pv_randn(rng, 999); const char* f = FILL[(idx / 48) % 6]; size_t fl = strlen(f);
+        bool head = pv_randn(rng, 2);
+        char* big = malloc(L + g.len + 16); size_t k = 0;
+        if (head && pv_randn(rng, 2)) { memcpy(big + k, "\xc3\xa9 ", 3); k += 3; }
+        if (!head) { memcpy(big + k, g.s, g.len); k += g.len; }
+        while (k + fl < L) { memcpy(big + k, f, fl); k += fl; }
+        if (head) { big[k++] = ' '; memcpy(big + k, g.s, g.len); k += g.len; }
+        big[k] = 0;
+        free(g.s); g.s = big; g.len = k;
+    }
     ssjob j = { pv_w, g.s, g.len, g.coin, g.lang, *rng };
     pthread_attr_t a; pthread_attr_init(&a); pthread_attr_setstacksize(&a, SMALL_STACK);
     pthread_t t;
